@@ -427,8 +427,10 @@ func c04Check(c *fw.Ctx, label string, f *dst.File, sites []decSite, baseTokens 
 		if g, err := format.Source(out); err == nil && bytes.Equal(g, out) {
 			back, err := rtParsePrint(out)
 			if err != nil || !bytes.Equal(back, out) {
+				// this is the round-trip property on a generated input: classified exactly like C01
+				sig1, _ := c01Signature(out)
+				preds := strings.Split(strings.TrimPrefix(sig1, "roundtrip:"), "+")
 				sig := "decorated-roundtrip"
-				preds := append(textPredicates(out), c01LayoutPredicates(out)...)
 				detail := ""
 				if err != nil {
 					detail = err.Error()
